@@ -45,6 +45,10 @@ func (Engine) WorkerEnv(tmp string, index int) []string {
 	return []string{"VERIF_RACE_LOG=" + p, "GORACE=log_path=" + p + " halt_on_error=0 atexit_sleep_ms=0 exitcode=0"}
 }
 
+// RunsPerProcess: short-lived worker processes, so that package-level state that is
+// initialised lazily (and races only the first time it is used) is cold often.
+func (Engine) RunsPerProcess() int { return 25 }
+
 // NoInProcessShrink: a race report cannot be re-evaluated in the same process.
 func (Engine) NoInProcessShrink(sig string) bool { return strings.Contains(sig, "|no-data-race|") }
 
